@@ -105,7 +105,9 @@ DenseSymmetricMatrixPair construct_locality_preserving_eigenproblem(SparseWeight
         }
     }
 
-    return DenseSymmetricMatrixPair(lhs, rhs);
+    // only the upper triangles have been accumulated, the eigensolver reads the other one
+    return DenseSymmetricMatrixPair(DenseSymmetricMatrix(lhs.selfadjointView<Eigen::Upper>()),
+                                    DenseSymmetricMatrix(rhs.selfadjointView<Eigen::Upper>()));
 }
 
 } // namespace tapkee_internal
